@@ -32,6 +32,7 @@ LEVEL_TEXT += ' Added clause: the optimisation pass every parse runs on accepts,
 TECHNIQUE += '; falsy rule values and action results in the call / rule_call contracts; AST._define with a name listed as single and list'
 TECHNIQUE += '; a single-bound name is never declared as a list (defines_list over all classes); a call is optimised into a call of the same rule (who-may-write Call._rule + contract)'
 TECHNIQUE += '; the separator of joins and gathers commits (= C05.R4); nameset/nameadd bind whatever last_node holds (None and falsy values)'
+TECHNIQUE += '; Rule.optimized / Grammar.optimized contract: the optimised rules keep name, parameters, flags and (modulo the valid rewrites) their body, in the written order, the written grammar untouched (C01.R15, interpreted on stand-ins)'
 LEVEL_NOTE = ('Trusted: contextlib.contextmanager throws the body exception at the yield; unresolved calls may raise '
               'anything; the documented CST table (DESIGN appendix A) is the oracle, written from docs/ast.rst and '
               'docs/syntax.rst.')
